@@ -1524,6 +1524,9 @@ func (s *State) checkIOSInterfaces() error {
 						" Device: %s, Netspoc: %s", name, aInfo.vrf, bInfo.vrf)
 			}
 		} else {
+			// If this unmanaged interface references some ACL or crypto
+			// map, these commands must not be changed or deleted.
+			s.markNeeded(c.sub)
 			// If config from Netspoc has no interface definitions, it is
 			// probably of type "managed=routing_only", and Netspoc won't
 			// change any interface config.
